@@ -291,6 +291,50 @@ def main():
     for inp in mutations(rng, cbase, 80 * N, long_tokens=[b"9" * 30, b"/" * 200, b"x" * 500]) + [b"foop/" + b"9" * 100 + b"\x00", b"a" * 20000, b"todo/18446744073709551617\x00"]:
         run_prog(S, [rb.path("qmail-clean")], inp, cwd=home)
 
+    # the delivery daemon itself: histories of the sanitised qmail-send + qmail-clean + qmail-queue (sanitizer reports go to files,
+    # descriptor 2 of qmail-send is a report channel)
+    import queue_common as qc, glob as _glob, signal as _signal
+    S = Surface(ck, "qmail-send_daemon", fails, None)
+    asan_log = os.path.join(vlib.scratch(), "asan.send")
+    def daemon_history(tag, script):
+        for f in _glob.glob(asan_log + "*"): os.remove(f)
+        W = qc.World(rb, "c20d", extra_env={"ASAN_OPTIONS": SAN_ENV["ASAN_OPTIONS"] + ":log_path=" + asan_log, "UBSAN_OPTIONS": SAN_ENV["UBSAN_OPTIONS"] + ":log_path=" + asan_log})
+        R = qc.Runner(W, {}, default=b"K")
+        try:
+            script(W, R)
+        except (ProcessLookupError, OSError, BrokenPipeError):
+            pass                                  # the daemon is gone: the reports below say why
+        finally:
+            died = W.d is not None and not W.d.alive()
+            if W.d: R.kill()
+        reports = b"".join(open(f, "rb").read() for f in _glob.glob(asan_log + "*"))
+        S.judge(tag.encode(), 97 if (reports or died) else 0, reports or (b"qmail-send died during the history" if died else b""), extra=dict(history=R.history[-30:], daemon_died=died))
+    def h_plain(W, R):
+        R.plan = {b"a@local.example": [b"K"], b"b@remote.example": [b"D"], b"c@local.example": [b"Z", b"Xgarbage" + b"g" * 3000, b"K"]}
+        R.start(); R.service(0.3); R.inject(b"s@x.example", [b"a@local.example", b"b@remote.example", b"c@local.example"]); R.inject(b"", [b"b@remote.example"]); R.drain(10)
+    def h_hup_unreadable(W, R):
+        R.start(); R.service(0.3)
+        vd = os.path.join(W.home, "control", "virtualdomains")
+        open(vd, "w").write("v.example:tag\n"); os.kill(W.d.send_pid, _signal.SIGHUP); R.service(0.3)
+        os.remove(vd); os.mkdir(vd); os.kill(W.d.send_pid, _signal.SIGHUP); R.service(0.3)          # reading it now fails (EISDIR)
+        R.inject(b"s@x.example", [b"u@v.example", b"w@elsewhere.example", b"x@local.example"]); R.drain(6)
+        os.kill(W.d.send_pid, _signal.SIGHUP); R.service(0.3)
+        R.inject(b"s@x.example", [b"y@v.example"]); R.drain(6)
+        os.rmdir(vd)
+    def h_hup_big(W, R):
+        R.start(); R.service(0.3)
+        open(os.path.join(W.home, "control", "locals"), "w").write("".join("host%d.example\n" % i for i in range(20000)) + "local.example\n")
+        open(os.path.join(W.home, "control", "virtualdomains"), "wb").write(b":catch\n" + b"x" * 70000 + b":t\n" + b"\x00\xff:z\n" + b"nocolon\n")
+        os.kill(W.d.send_pid, _signal.SIGHUP); R.service(0.4)
+        R.inject(b"s@x.example", [b"q@" + b"d" * 300 + b".example", b"r%s@local.example"]); R.drain(6)
+        os.remove(os.path.join(W.home, "control", "virtualdomains"))
+    def h_long_addresses(W, R):
+        R.plan = {}
+        R.start(); R.service(0.3)
+        R.inject(b"s" * 900 + b"-@[]", [b"l" * 950 + b"@local.example", b"\"q\"@" + b"r" * 800, b"a@b@c%d@local.example"]); R.default = b"D"; R.drain(8)
+    for tag, sc in (("delivery, deferral, garbled report, bounce", h_plain), ("SIGHUP with an unreadable virtualdomains, then non-local recipients", h_hup_unreadable),
+                    ("SIGHUP with huge control files", h_hup_big), ("900-byte sender and recipients, all failing", h_long_addresses)):
+        daemon_history(tag, sc)
     # qmail-popup: long and hostile lines before authentication
     S = Surface(ck, "qmail-popup", fails, {0, 1})
     pstub = os.path.join(vlib.scratch(), "pw.sh"); open(pstub, "w").write("#!/bin/sh\ncat <&3 >/dev/null\nexit 1\n"); os.chmod(pstub, 0o755)
